@@ -5,6 +5,7 @@ import ScVerif.C15.Paging
 ```
 keys <hex,hex,…|->                 → ok <n>
 page <gt|ge> <size> <E|B|K<hex>>   → ok <hex,…|-> <N|T<hex>> <total> | err <Code> | panic
+codec <gt|ge> <hex bytes>           → <first page> | <page after its token>   or   invalid (not UTF-8)
 waste <n> <size> <E|B|I<int>>      → ok <i,…|-> <N|T<int>> <total>   | err <Code> | panic
 ```
 Keys travel as the hex of their UTF-8 bytes. -/
@@ -77,6 +78,20 @@ def step (keys : List String) (toks : List String) : Option (List String × Stri
     let size ← parseInt? size
     let tok ← parseTok? tok
     pure (keys, showPage (listPage v keys tok size))
+  | ["page", v, size, tok, vis] => do
+    let v ← parseVariant? v
+    let size ← parseInt? size
+    let tok ← parseTok? tok
+    let vis ← parseBool? vis
+    pure (keys, showPage (listPageMasked v keys tok size vis))
+  | ["codec", v, h] => do
+    -- a one-item listing whose key is the given byte string: mint a token from it and use it
+    let v ← parseVariant? v
+    let bs ← hexBytes? h.toList
+    match String.fromUTF8? (ByteArray.mk bs.toArray) with
+    | none => pure (keys, "invalid")        -- not a string: a protobuf string field cannot carry it
+    | some s =>
+      pure (keys, showPage (listPage v [s] .empty 1) ++ " | " ++ showPage (listPage v [s] (.key s) 1))
   | ["waste", n, size, tok] => do
     let n ← parseNat? n
     let size ← parseInt? size
